@@ -10,7 +10,13 @@ SENTINEL = object()
 DEFAULTS = {'False': False, 'True': True, 'None': None, 'sentinel': SENTINEL}
 
 
+WORD_GAMMA = {'off_ligature': 'o\ufb00', 'yes_long_s': 'ye\u017f', 'false_long_s': 'fal\u017fe'}
+BIG = {'2^63': 2 ** 63, '2^64': 2 ** 64, '-2^63-1': -2 ** 63 - 1, '10^30': 10 ** 30}
+
+
 def case_word(w, cas):
+    if w in WORD_GAMMA:
+        return WORD_GAMMA[w]        # no casing: upper-casing would expand the ligature into the documented word
     if cas == 'lower':
         return w.lower()
     if cas == 'UPPER':
@@ -83,6 +89,8 @@ def run(ctx):
                            call(strutils.bool_from_string, obj, strict=c['strict'], default=d), bool_expect(ref['bool'])))
         elif k == 'int':
             lit = c['lit']
+            if lit['t'] in BIG:
+                lit = dict(lit, t=str(BIG[lit['t']]), v=BIG[lit['t']])
             if c['form'] == 'int':
                 if not lit['canon']:
                     continue
